@@ -221,6 +221,34 @@ for n, c := @b1, 0; n > 0 && c < 6; n, c = n-2, c+1 {
 	fmt.Print(n, c, ";")
 }
 fmt.Println()`},
+	// the post statement of a three-clause loop in every simple-statement form, its last operand an identifier,
+	// an index, a selector, a binary expression, a call (what precedes the body's brace varies)
+	{ID: "for-post-forms", Holes: []string{"int"}, Body: `stp := 2
+for n := 0; n < @1 && n < 9; n += stp {
+	fmt.Print(n, " ")
+}
+nxt := []int{1, 2, 3, 3}
+for n := 0; n < 3; n = nxt[n] {
+	fmt.Print(n, " ")
+}
+for a, b, g := 0, 1, 0; g < 6; a, b, g = b, a+b, g+1 {
+	fmt.Print(a, " ")
+}
+type node struct {
+	nx *node
+	v  int
+}
+l := &node{&node{nil, 2}, 1}
+for c := l; c != nil; c = c.nx {
+	fmt.Print(c.v, " ")
+}
+for n := 1; n < 40; n = inc(n) + n + stp {
+	fmt.Print(n, " ")
+}
+for n, lim := 0, @b1; n < lim && n < 5; n -= -stp {
+	fmt.Print(n, " ")
+}
+fmt.Println()`},
 	{ID: "for-cond", Holes: []string{"int"}, Body: `n, g := @b1, 0
 for n > 0 && g < 8 {
 	n /= 2
